@@ -18,6 +18,9 @@ func (vc *VC) bindResult(n *Node, x ssa.Value, sig *types.Signature, vals []Val)
 			}
 			vc.callRes[contractName(sc)] = vals
 			vc.callCount[contractName(sc)]++
+			// also by ordinal: "F#k" is the k-th call of F in the order the generator meets them (block order)
+			vc.callRes[fmt.Sprintf("%s#%d", contractName(sc), vc.callCount[contractName(sc)])] = vals
+			vc.callCount[fmt.Sprintf("%s#%d", contractName(sc), vc.callCount[contractName(sc)])] = 1
 		}
 	}
 	switch len(vals) {
